@@ -671,8 +671,8 @@ public:
         using reference = typename iterator::reference;
 
         bool empty() const {
-            return my_begin.my_node_ptr ? (my_begin.my_node_ptr->next(0) == my_end.my_node_ptr)
-                                        : true;
+            // A range with a single element is not empty (it only cannot be divided)
+            return my_begin.my_node_ptr == my_end.my_node_ptr;
         }
 
         bool is_divisible() const {
